@@ -2,7 +2,7 @@
 # tools/try_all_seeds.sh [PAR]: every seeded change against its check (scratch worktrees), summary on stdout.
 # Meant for `vp run -- tools/try_all_seeds.sh`: builds the Lean tree of the snapshot first.
 cd "$(dirname "$0")/.."
-PAR=${1:-4}
+PAR=${1:-1}  # sequential by default: concurrent checks of ONE /verif tree share lean/ExaModel/Generated (regenerated from each patched tree)
 [ -d lean/.lake/build/bin ] || ./setup.sh > /tmp/exp-setup.log 2>&1
 ls seeded | xargs -P "$PAR" -I{} sh -c 'p=$(python3 -c "import json;print(json.load(open(\"seeded/{}/meta.json\"))[\"property\"])"); python3 tools/try_seed.py {} $p > /tmp/seedrun-{}.log 2>&1; python3 -c "
 import json
